@@ -295,7 +295,9 @@ def specificity(args):
     alarms, rows = [], []
     for patch in dirs:
         rid = os.path.basename(os.path.dirname(patch))
-        if args.replay and not re.search(args.replay, rid):  # --replay doubles as a filter (regex on the id)
+        # --replay doubles as a filter: "<regex on the id>[@<check>]"
+        rid_re, _, only_chk = (args.replay or "").partition("@")
+        if rid_re and not re.search(rid_re, rid):
             continue
         try:
             d = _scratch_repo(patch)
@@ -310,6 +312,8 @@ def specificity(args):
             # alter behaviour the property does not constrain") only against its own
             checks = REFACTOR_CHECKS.get(rid[:3], [rid[:3]]) if rid[3:4] in ("r", "s", "v", "R") else [rid[:3]]
             for chk in checks:
+                if only_chk and chk != only_chk:
+                    continue
                 env = dict(os.environ)
                 env["VERIF_REPO"] = d
                 env["VERIF_REPO_SRC"] = os.path.join(d, "src")
